@@ -1436,6 +1436,10 @@ def _run_hom_table(ctx, rid, it, table, home_rel, complex_scale=False,
     from ..shape import AObj, AttributeErrorSim, RaiseSim
     import os
     r = ctx.r
+    # the set of complex scale variables is module state of sa.hom: start
+    # every table from an empty set, or a worker process that has run a
+    # complex table before would type `self` as complex in a real one
+    HM.COMPLEX_VARS.clear()
     debug = os.environ.get("SA_HOM_DEBUG")
     # composite shapes of the objects: one batch axis in the quick tier, none
     # / one / two in the thorough tier (rank-dependent branches)
